@@ -63,11 +63,17 @@
                                                         -> nest_no_handle_to_released_object, nest_no_fault
    the code as written before fixes/C09/02 (operator= reads `other` again after the release) does access a
    released object on `cur = cur->next`                 -> nest_assign_as_written_refuted
-   Not covered by a theorem (validated by correspondence only): that the Model computes the same objects,
-   chains and destructions as the counter-free reference object RcNest.pstep (sweep of objects without a handle). *)
+   the machine computes what the counter-free reference object RcNest.pstep computes (variables and members
+   as a plain pointer graph; after every operation the objects no handle refers to are destroyed, repeatedly):
+   same variables, same chains, same objects destroyed, for every history; and everything the check compares
+   after an operation (chains read through the variables, objects alive, objects destroyed) is a function of it
+                                                        -> nest_step_refines_reference_object,
+                                                           nest_history_refines_reference_object
+   the reference object does not depend on the order in which objects without a handle are destroyed
+                                                        -> nest_reference_destruction_order_irrelevant *)
 From Coq Require Import ZArith List Bool Arith.
 From Common Require Import ListAux.
-From Rc Require Import RcModel RcSpec RcProofs RcSeq RcRefine RcConc RcConcProofs RcNest RcNestProofs RcExamples.
+From Rc Require Import RcModel RcSpec RcProofs RcSeq RcRefine RcConc RcConcProofs RcNest RcNestProofs RcNestRefine RcExamples.
 Import ListNotations.
 Local Open Scope Z_scope.
 
@@ -345,6 +351,21 @@ Theorem nest_assign_as_written_refuted :
 Proof. exact nassign_as_written_refuted. Qed.
 Print Assumptions nest_assign_as_written_refuted.
 
+Theorem nest_step_refines_reference_object : forall s o, NInv s -> nabs (nstep s o) = pstep (nabs s) o.
+Proof. exact nstep_refines. Qed.
+Print Assumptions nest_step_refines_reference_object.
+
+Theorem nest_history_refines_reference_object : forall ops,
+  nabs (nrun ops) = prun ops /\
+  map (fun o => match o with NODead => PODead | NOChain c => POChain (map (fun x => (fst (fst x), snd (fst x))) c) end) (nobs (nrun ops)) = pobs (prun ops) /\
+  nlive_blocks (nrun ops) = palive_count (prun ops) /\ ntotal_dtors (nrun ops) = pdead_count (prun ops).
+Proof. exact nhist_observation_refines. Qed.
+Print Assumptions nest_history_refines_reference_object.
+
+Theorem nest_reference_destruction_order_irrelevant : forall t t', kills t t' -> settled t' -> t' = sweep t.
+Proof. exact kills_is_sweep. Qed.
+Print Assumptions nest_reference_destruction_order_irrelevant.
+
 (* ---- non-vacuity ---------------------------------------------------------------------------------- *)
 (* the chain 0 -> 1 -> 2 held by variable 0 alone: every counter is 1 = one handle, two of them inside payloads *)
 Example ex_nest_chain_counts :
@@ -370,4 +391,16 @@ Example ex_nest_cycle_stays :
   map (fun k => (nrc k, nfreed k)) (nheap (nrun ex_nest_cycle)) = [(1, false); (1, false); (1, false)]
   /\ nvars (nrun ex_nest_cycle) = [NDead; NLive HNone; NDead; NDead]
   /\ map (nhandles (nrun ex_nest_cycle)) [0; 1; 2]%nat = [1; 1; 1].
+Proof. vm_compute. repeat split. Qed.
+(* the reference object on the same histories: cur = cur->next twice leaves object 2; the cycle stays; and destroying
+   the two objects of a dropped chain in the other order than the sweep does ends in the same state *)
+Example ex_nest_reference_object :
+  map palive (pobjs (prun ex_nest_walk)) = [false; false; true] /\ pobs (prun ex_nest_walk) = [POChain [(2%nat, 12)]; PODead; PODead; PODead]
+  /\ map palive (pobjs (prun ex_nest_cycle)) = [true; true; true]
+  /\ nabs (nrun ex_nest_unlink) = prun ex_nest_unlink.
+Proof. vm_compute. repeat split. Qed.
+Example ex_nest_other_order :
+  let t := {| pvars := [PDead]; pobjs := [{| palive := true; pn := 1; pnext := Some 1%nat |}; {| palive := true; pn := 2; pnext := None |}] |} in
+  referenced t 0 = false /\ referenced t 1 = true /\ referenced (pkill t 0) 1 = false
+  /\ map palive (pobjs (sweep t)) = [false; false] /\ pkill (pkill t 0) 1 = sweep t.
 Proof. vm_compute. repeat split. Qed.
